@@ -66,7 +66,7 @@ func (t *T) build() stmt.Expr {
 
 var treeAtoms = []*T{
 	{K: "field", S: "f"},
-	{K: "number", N: 0.123456789012},
+	{K: "number", N: 0.30000000000000004}, // 17 significant digits
 	{K: "number", N: 0},
 	{K: "equals", S: "host", R: "1.1.1.1"},
 	{K: "in", S: "ip", V: []string{"a", "/b"}},
